@@ -115,3 +115,7 @@ Proof.
           (skel_rearrange 1 d2 (dot_rhs d1 d2 dout) d2' (dot_rhs d1' d2' dout') H2 Hr).
   now rewrite !perm_of_names, Hm, H3.
 Qed.
+
+Theorem skel_broadcast k din dout din' dout' :
+  lnames din = lnames din' -> lnames dout = lnames dout' -> skel (lower_broadcast k din dout) = skel (lower_broadcast k din' dout').
+Proof. intros H1 H2. unfold lower_broadcast. cbn [skel]. now rewrite (skel_align k din dout din' dout' H1 H2). Qed.
